@@ -129,9 +129,79 @@ def native_cmds(cmds, answers, rng, limit):
     return out
 
 
+def source_tie(ck):
+    """translator tie (round 5): calling-convention table and finalize/emitter constants are re-translated from the C++ SOURCE of the
+    tree under test (tools/c07_translate.py) on every run; coqc re-checks `model = source data` (coq/gen/C07SourceData.v) whenever the
+    text differs from the committed snapshot.  Returns the gen dir for coq_properties (None: committed snapshot is current)."""
+    import shutil
+    import c07_translate
+    try:
+        text = c07_translate.translate(vlib.REPO)
+    except (c07_translate.TranslateError, OSError, KeyError, IndexError, ValueError) as e:
+        ck.violation("C07/translator/source-not-understood", "tools/c07_translate.py cannot translate init_call_conv / the finalize constants of %s: %s: %s"
+                     % (vlib.REPO, type(e).__name__, e), {"broken": "translator tools/c07_translate.py", "detail": str(e)}, no_input=True)
+        return None, {"translated": False}
+    rows = re.findall(r"^  \((\w+), (\d+), (\d+), (None|Some \(mkcc [^;]*?\)\))\)[;]?$", text, re.M)
+    info = {"translated": True, "cc_rows_from_source": len(rows), "constants_from_source": 7}
+    committed = os.path.join(vlib.COQ, "gen", "C07SourceData.v")
+    if os.path.exists(committed) and open(committed).read() == text:
+        info["snapshot"] = "identical to committed coq/gen/C07SourceData.v (theorems checked with the theories)"
+        return None, info
+    wgen = os.path.join(ck.work, "gen")
+    shutil.rmtree(wgen, ignore_errors=True)
+    os.makedirs(wgen)
+    open(os.path.join(wgen, "C07SourceData.v"), "w").write(text)
+    ck.coq_make(["theories/Frame/FrameModel.vo"])
+    rc, out, err = vlib.sh(["coqc", "-Q", os.path.join(vlib.COQ, "theories"), "Verif", "-Q", wgen, "VerifGen", "-w", "-all",
+                            os.path.join(wgen, "C07SourceData.v")], cwd=wgen, timeout=600)
+    info["snapshot"] = "regenerated and re-checked by coqc"
+    if rc != 0:
+        # name the rows / constants on which model and source differ
+        goals = ["From Coq Require Import ZArith List Bool.", "From Verif Require Import Frame.FrameModel.", "Local Open Scope Z_scope."]
+        for a, p_, c, o in rows:
+            goals.append('Goal cc_init %s %s %s = %s. Proof. first [vm_compute; reflexivity | idtac "MISMATCH %s %s %s"]. Abort.' % (a, p_, c, o, a, p_, c))
+        kv = dict(re.findall(r"Definition (src_\w+) : Z := (\d+)\.", text))
+        goals[1] = "From Verif Require Import Frame.FrameModel Frame.FrameExamples."
+        cgoals = {"src_frame_size_limit": "frame_size_limit = %s", "src_err_too_large": "finalize_error ex_too_large = %s",
+                  "src_err_a64_refusal": "finalize_error ex_a64_align32 = %s", "src_min_dynamic_floor": "min_dynamic_alignment 4 = %s",
+                  "src_a64_imm_one": "length (fst (a64_adjust true %s)) = 1%%nat /\\ length (fst (a64_adjust true (%s + 1))) = 2%%nat",
+                  "src_a64_imm_two": "snd (a64_adjust true %s) = true /\\ snd (a64_adjust true (%s + 1)) = false"}
+        for k, g in cgoals.items():
+            if k in kv:
+                goals.append('Goal %s. Proof. first [vm_compute; repeat split; reflexivity | idtac "CONSTANT %s"]. Abort.' % (g.replace("%s", kv[k]).replace("%%", "%"), k))
+        rc2, out2 = ck.coq_eval("\n".join(goals) + "\n", name="c07_rows")
+        bad = re.findall(r"MISMATCH (\w+) (\d+) (\d+)", out2)
+        badc = re.findall(r"CONSTANT (\w+)", out2)
+        info["snapshot"] = "regenerated; model and source DIFFER"
+        for k in badc:
+            v = int(kv[k])
+            cmd = {"src_a64_imm_two": "F 2 0 0 2 0 0 0 0 0 %d 0 0 0 255" % (v + 1), "src_a64_imm_one": "F 2 0 0 2 0 0 0 0 0 %d 0 0 0 255" % (v + 1),
+                   "src_frame_size_limit": "F 1 0 0 2 0 8 0 0 0 %d 0 0 0 255" % (v + 1), "src_min_dynamic_floor": "F 0 0 0 2 0 0 0 0 0 16 %d 0 0 255" % v
+                   }.get(k, "F 1 0 0 2 0 8 0 0 0 4294967232 0 4096 0 255" if k == "src_err_too_large" else "F 2 0 0 2 0 0 0 0 0 40 32 0 0 255")
+            ck.violation("C07/translator/constant-differs/" + k[4:], "%s -> the source of the tree has %s = %d; the model's value differs (threshold / error code of "
+                         "FuncFrame::finalize, FuncFrame::init or the AArch64 sub/add sp sequence)" % (cmd, k, v), {"command": cmd, "source": "%s = %d" % (k, v)})
+        if badc and not bad:
+            return None, info
+        if bad:
+            for a, p_, c in bad[:5]:
+                cmd = "F %d %s %s 2 0 255 255 0 0 0 0 0 0 255" % ({"X86": 0, "X64": 1, "A64": 2}[a], p_, c)
+                want = [o for (a2, p2, c2, o) in rows if (a2, p2, c2) == (a, p_, c)][0]
+                ck.violation("C07/translator/calling-convention-differs", "%s -> init_call_conv in the source of the tree yields %s for (%s, platform %s, convention %s); "
+                             "the model's cc_init says otherwise" % (cmd, want, a, p_, c), {"command": cmd, "source": want})
+        else:
+            ck.violation("C07/translator/constant-differs", "a constant of FuncFrame::finalize / the AArch64 emitters / the Error enum translated from the source "
+                         "differs from the model (coqc on the regenerated C07SourceData.v): %s" % (out + err)[-600:],
+                         {"broken": "model constants vs source", "detail": (out + err)[-1500:],
+                          "command": "F 1 0 0 2 0 8 0 0 0 %d 0 4096 0 255" % 0x7FFF0000}, no_input=True)
+        return None, info
+    return wgen, info
+
+
 def run(ck):
     rng = random.Random(ck.seed)
-    obl = ck.coq_properties()
+    gen_dir, tie_info = source_tie(ck)
+    ck.log("source translation: %s" % tie_info)
+    obl = ck.coq_properties(gen_dir=gen_dir)
     ck.log("theorems: %d, failed: %d" % (len(obl), len([o for o in obl if not o["ok"]])))
     impl = ck.build_harness("c07", ["c07_harness.cpp"])
     model = ck.ocaml_model("Extract_Frame.v", ["zconv.ml", "c07_driver.ml"], name="c07")
@@ -201,8 +271,13 @@ def run(ck):
     ck.log("a64 refusal of unrealisable frames %s" % ("present" if (r1 and r2) else "MISSING"))
     # proposed fixes/C07-final-alignment-truthful.patch: x86-32, natural 4, requested 8: is final_stack_alignment() reported as 4 (what is delivered)?
     pal = c07_oracle.parse_answer(vlib.sh([impl], inp="F 0 0 0 2 0 0 0 0 0 16 8 0 0 255\n")[1].strip())
-    align_fix = 1 if (pal is not None and pal["final_align"] == 4) else 0
-    ck.log("tree variant: truthful final alignment %s" % ("present" if align_fix else "absent"))
+    # committed in /repo (a1b136b): the model always describes it; the probe is a regression detector
+    align_fix = 1
+    if not (pal is not None and pal["final_align"] == 4):
+        ck.violation("C07/x86/alignment-between-natural-and-min-dynamic", "F 0 0 0 2 0 0 0 0 0 16 8 0 0 255 -> final_stack_alignment() reports %s for an x86-32 frame that can "
+                     "only deliver the natural alignment 4 (truthful-alignment repair missing)" % (pal and pal["final_align"]),
+                     {"command": "F 0 0 0 2 0 0 0 0 0 16 8 0 0 255", "impl": str(pal and pal["final_align"])})
+    ck.log("truthful final alignment %s" % ("present" if (pal is not None and pal["final_align"] == 4) else "MISSING"))
     mcmds = [c + " " + argstack_of(a) + " 0 %d %d %d" % (sa_fix, a64_refusal, align_fix) for c, a in zip(cmds, ri)]
     rm = run_sharded(model, mcmds) if ri else []
     if isinstance(rm, tuple):
@@ -226,7 +301,7 @@ def run(ck):
         arch = int(t[1])
         natural = pa["natural"]
         ras = 0 if arch == 2 else (4 if arch == 0 else 8)
-        sp0 = (0x7FFF0000 if arch == 0 else 0x7FFFFFFF0000) - natural * (idx % 64) - ras
+        sp0 = (0x7FFF0000 if arch == 0 else 0x7FFFFFFF0000) - natural * c07_oracle.entry_slot(c, ck.seed) - ras   # same entry state as the interpreter
         cleanup = pa["argstack"] if c07_oracle.callee_pops(arch, int(t[2]), int(t[3])) else 0
         lsz = min(int(t[10]), 1 << 40)
         ecmds.append("E %d %d %d %s %s %s %d %s %d %d %d | %s | %s" % (
@@ -261,7 +336,7 @@ def run(ck):
             elif code > 0 and not keys:
                 pass
 
-    stats = {"proven_machine_runs": exec_stats, "arch": {}, "cc": {}, "refused_by_callconv": 0, "refused_by_emitter": 0, "asm_error": 0, "has_da": 0, "has_fp": 0,
+    stats = {"source_translation": tie_info, "proven_machine_runs": exec_stats, "arch": {}, "cc": {}, "refused_by_callconv": 0, "refused_by_emitter": 0, "asm_error": 0, "has_da": 0, "has_fp": 0,
              "vec_saves": 0, "callee_pops": 0, "oracle_keys": {}}
     disagreements = 0
     nontrivial = set()
@@ -289,6 +364,31 @@ def run(ck):
                 sc["roundtrip_a64"] += 1          # = a64_realisable: scope of C07_roundtrip_a64 / C07_roundtrip_a64_accepted
             else:
                 sc["a64_outside_scope(findings)"] += 1
+            arms = stats.setdefault("case_split_arms", {})
+            def arm(name):
+                arms[name] = arms.get(name, 0) + 1
+            if not (pa["P_berr"] or pa["E_berr"]) or arch == 2:
+                E = pa["E"]
+                if arch == 2:
+                    adj = pa["adj"]
+                    arm("a64 sub/add sp: " + ("no adjustment" if adj == 0 else "one immediate (<= 4095)" if adj <= 4095 else
+                                              "two immediates (<= 16777215)" if adj <= 16777215 else "emitter refuses (> 16777215)"))
+                    arm("a64 pairs: GP %s, vec %s" % ("odd" if bin(pa["dirty"][0] & pa["preserved"][0]).count("1") % 2 else "even",
+                                                      "odd" if bin(pa["dirty"][1] & pa["preserved"][1]).count("1") % 2 else "even"))
+                else:
+                    rs = "none"
+                    for ins in E:
+                        if re.match(r"mov G\d\.4,G\d\.5$", ins): rs = "mov sp,bp"; break
+                        if re.match(r"lea G\d\.4,\[G5", ins): rs = "lea sp,[bp-n]"; break
+                        if re.match(r"add G\d\.4,#", ins): rs = "add sp,n"; break
+                        if re.match(r"mov G\d\.4,\[G4", ins): rs = "load of the DA slot"; break
+                    arm("x86 restore sp: " + rs)
+                    arm("x86 return: " + ("ret n" if pa["cleanup"] else "ret"))
+                    vm = [i.split(" ")[0] for i in pa["P"] if i.split(" ")[0] in ("movaps", "movups", "vmovaps", "vmovups")]
+                    arm("x86 vector save: " + (vm[0] if vm else "none"))
+                req = max([pa["natural"]] + [int(t[11]) if int(t[10]) else 0] + [int(t[13]) if int(t[12]) else 0])
+                arm("alignment: " + ("dynamic" if pa["has_da"] else "natural" if req <= pa["natural"] else
+                                     "lowered to natural (truthful)" if pa["final_align"] == pa["natural"] else "above natural without realignment"))
             fm = stats.setdefault("feature_matrix", {})
             feat = "%s fp=%d da=%d extra_saves=%d sa_reg=%s pops=%d" % (["x86", "x64", "a64"][arch], int(t[5]) & 1, pa["has_da"], 1 if pa["ex_size"] else 0,
                                                                    "sp" if pa["sa_reg"] == pa["sp_reg"] else "other", 1 if pa["cleanup"] else 0)
@@ -318,10 +418,17 @@ def run(ck):
             if not refused:
                 for (k, w) in vs:
                     if k != "refused":
-                        kk = "C07/%s/frame-arithmetic-wraps" % ["x86", "x64", "a64"][arch]
+                        kk = "C07/%s/frame-arithmetic-wraps-again" % ["x86", "x64", "a64"][arch]   # repaired by a53b13c: a return is a VIOLATION (the old finding key is retired)
                         stats["oracle_keys"][kk] = stats["oracle_keys"].get(kk, 0) + 1
                         ck.violation(kk, w, {"command": c, "impl": a})
                         break
+            # the model's finalize_error decides the refusal too (kTooLarge): the answers must be identical
+            if m is not None and canon_impl(a) != m:
+                disagreements += 1
+                ck.violation("C07/correspondence/refusal", "implementation and model (finalize_error) disagree on the oversized frame %r\n impl : %s\n model: %s"
+                             % (c, canon_impl(a)[:300], m[:300]), {"command": c, "impl": a, "model": m})
+            else:
+                stats["refusals_compared"] = stats.get("refusals_compared", 0) + 1
             continue
         for (k, w) in vs:
             if k == "refused":
@@ -330,6 +437,8 @@ def run(ck):
             stats["oracle_keys"][k] = stats["oracle_keys"].get(k, 0) + 1
             if ck.violation(k, w, {"command": c, "impl": a, "model": m}):
                 found_input = True
+        if m is not None and canon_impl(a) == m and " L ?" in a:
+            stats["refusals_compared"] = stats.get("refusals_compared", 0) + 1
         if m is not None and canon_impl(a) != m:
             disagreements += 1
             if not found_input:
@@ -419,7 +528,8 @@ def run(ck):
         for c, a in zip(ccmds, rc_):
             if a.startswith("C 1 diverges"):
                 comp_stats["diverged"] = comp_stats.get("diverged", 0) + 1
-                ck.violation("C07/a64/compiler-diverges-on-over-aligned-frame-with-stack-args", "%s -> the AArch64 Compiler does not terminate (memory/time limit hit "
+                ck.violation("C07/a64/compiler-diverges-again",   # gone with fef32d9: a return is a VIOLATION (the old finding key is retired)
+                              "%s -> the AArch64 Compiler does not terminate (memory/time limit hit "
                              "in emit_args_assignment): function with stack-passed arguments and a stack slot aligned to more than 16 (%s)" % (c, a), {"command": c, "impl": a})
         good = [(c, a.split(" | ")) for c, a in zip(ccmds, rc_) if a.startswith("C 0 | ")]
         comp_stats["errors"] = len(ccmds) - len(good)
@@ -580,22 +690,38 @@ def run(ck):
         ck.violation("C07/proof/" + o["name"], "theorem %s no longer checks (%s)" % (o["name"], getattr(ck, "coq_log", "")[-800:]),
                      {"broken": "theorem " + o["name"], "file": "coq/theories/Properties/Properties_C07.v"}, no_input=True)
 
-    samples = [{"cmd": c, "impl": a[:400], "model": (rm[i] if i < len(rm) else "")[:400]}
-               for i, (c, a) in list(enumerate(zip(cmds, ri)))[len(cmds) // 2: len(cmds) // 2 + 3]]
+    example_answers = [{"cmd": c, "impl": a[:400], "model": (rm[i] if i < len(rm) else "")[:400]}
+                       for i, (c, a) in list(enumerate(zip(cmds, ri)))[len(cmds) // 2: len(cmds) // 2 + 3]]
+    proved_vs_compared = {
+        "proved for ALL inputs (Coq, closed under the global context)":
+            "layout chain, x86/x64 and AArch64 round trip, frame conditions (what prolog/epilog must not change), alignment, no-wrap for every frame "
+            "finalize accepts, slot placement for every processing order, meaning of the proven machine's verdicts (both directions), "
+            "model = source for the calling-convention table and the thresholds (see obligations)",
+        "translated from the C++ source on this run and re-checked by coqc when changed": tie_info,
+        "compared EXHAUSTIVELY on this run": "every (architecture, platform, convention id) through the running code (corner frames), every frame on a "
+            "case-split threshold of the model (tools/c07_gen.py boundary_frames), the variant probes",
+        "compared on GENERATED inputs of this run (counts in this record)": "finalize outputs, refusals and prolog/epilog instruction lists of "
+            "implementation vs extracted model (frames), argument-copy frames, frames of compiled functions, slot sets; every implementation answer "
+            "is additionally judged by the independent interpreter, by the extracted proven machine and (x86-64) by native execution",
+    }
     return ck.finish(
         "proof",
         {"evaluations": len(cmds), "distinct_nontrivial": len(nontrivial),
          "rule": "frame commands from VERIF_SEED (tools/c07_gen.py: every convention id x platform x arch corner frames, then random frames over dirty "
                  "mask classes, size/alignment boundaries, FP/calls/AVX/AVX-512 flags, SA register); a frame is non-trivial when the real prolog has at "
                  "least one instruction (distinct command lines counted)",
-         "samples": samples, "distribution": stats, "model_vs_impl_disagreements": disagreements,
+         "example_answers": example_answers, "proved_vs_compared": proved_vs_compared, "distribution": stats, "model_vs_impl_disagreements": disagreements,
          "tree_variant": {"truthful_final_alignment": bool(align_fix)}, "frames_judged_by_oracle": len(verdicts), "traces_validated_against_impl": len(cmds)},
         assumptions=["the C++ harness calls the real FuncDetail::init, FuncFrame::init/finalize and BaseEmitter::emit_prolog/emit_epilog of /repo's working tree",
                      "theorems are about the Gallina model (FrameModel.v) and the abstract machine (FrameMachine.v); the model is tied to the code by the "
                      "exact differential of this check; the machine's instruction semantics are trusted (validated by the python interpreter and native runs)",
                      "arg_stack_size is an input of the frame model (owned by C06); pointer arithmetic is on unbounded integers (no wrap-around at 0 / 2^64)",
-                     "alignments are powers of two (API contract); sizes below 2^31"],
+                     "alignments are powers of two (API contract); frames above finalize's size limit are refused (finalize_error, inside the model)",
+                     "tools/c07_translate.py understands the statement subset init_call_conv is written in; RegGroup indices and the Environment predicates of "
+                     "the three harness platforms are given to it"],
         checker_cmd="coqc (Coq 8.16.1) -Q coq/theories Verif coq/theories/Properties/Properties_C07.v  [full .vo build of its dependencies]",
         trusted_base=["Coq 8.16.1 kernel incl. vm_compute (no native_compute)", "no axioms: every theorem 'Closed under the global context'",
                       "extraction (ExtrOcamlBasic only) + OCaml + zarith glue in ml/zconv.ml",
-                      "harness/c07_harness.cpp, tools/checks/c07.py, tools/c07_gen.py, tools/c07_oracle.py (generator, differ, interpreter oracle)"])
+                      "harness/c07_harness.cpp, tools/checks/c07.py, tools/c07_gen.py, tools/c07_oracle.py (generator, differ, interpreter oracle)",
+                      "tools/c07_translate.py (C++ subset interpreter; a wrong translation makes coqc reject `model = source`, it cannot make a theorem pass silently "
+                      "unless it errs exactly like the model)"])
